@@ -188,6 +188,27 @@ example : Spec.unhex [48, 48, 70, 70, 49, 65] = some [0x00, 0xFF, 0x1A] := by de
 example : Spec.unhex [48, 48, 70] = none ∧ Spec.unhex [48, 71] = none := by decide   -- odd length / non-digit
 example : fromHex [0x00, 0xFF, 0x1A] = .ok [48, 48, 70, 70, 49, 65] := by decide   -- "00FF1A"
 
+/-- consequences of `hex_upper`/`hex_roundtrip` stated outright, for EVERY pair of byte strings: `String::fromHex` is injective
+    (two different byte strings never get the same text) and a homomorphism for concatenation (the text of `a ++ b` is the text of
+    `a` followed by the text of `b`: no byte's digits depend on its neighbours or on its position) -/
+theorem hex_injective_and_concatenates (a b : List UInt8) :
+    (fromHex (a.map UInt8.toNat) = fromHex (b.map UInt8.toNat) → a = b) ∧
+    (∃ ta tb, fromHex (a.map UInt8.toNat) = .ok ta ∧ fromHex (b.map UInt8.toNat) = .ok tb ∧
+      fromHex ((a ++ b).map UInt8.toNat) = .ok (ta ++ tb)) := by
+  constructor
+  · intro h
+    obtain ⟨ta, h1, h2, _⟩ := hex_roundtrip a
+    obtain ⟨tb, h3, h4, _⟩ := hex_roundtrip b
+    rw [h1, h3] at h
+    have : ta = tb := by injection h
+    rw [this, h4] at h2
+    have h5 : a.map UInt8.toNat = b.map UInt8.toNat := by injection h2 with h2; exact h2.symm
+    exact map_toNat_inj a b h5
+  · refine ⟨_, _, hex_upper a, hex_upper b, ?_⟩
+    rw [hex_upper (a ++ b), List.map_append, upperHex_append]
+
+example : fromHex (([0x00, 0xFF] ++ [0x1A] : List UInt8).map UInt8.toNat) = .ok ([48, 48, 70, 70] ++ [49, 65]) := by decide
+
 /-! ## fromBase64 -/
 
 /-- `String::fromBase64` returns the original bytes for the RFC 4648 encoding (with padding) of EVERY
